@@ -255,6 +255,60 @@ func randomScript(rng *rand.Rand, seed int64, withSim, withAbciOld bool) (Script
 	return sc, ks
 }
 
+// sessionScript: the session cache path of C13.  Only a2 is staked for chain 0002 and the
+// genesis application a4 is staked for 0001 and 0002, so with one node per session the
+// session of (a4, 0002) is {a2}.  Node A serves a dispatch for that session (which caches
+// it); then a2's record changes inside the session (edit-stake that drops / keeps the
+// chain, stake bump, jail by absence); after the session has ended a2 claims it.  The
+// claim needs no valid Merkle root to reach the session-membership check.
+func sessionScript(rng *rand.Rand, seed int64) (Script, []string) {
+	sc := Script{Seed: seed, Actions: warmActions()}
+	kinds := []string{"dispatch"}
+	// session 2 = heights 5..8 (blocks per session 4); we are at height 2
+	for h := 3; h <= 4; h++ {
+		sc.Actions = append(sc.Actions, Action{A: "block"})
+	}
+	dispatchAt := 5 + rng.Intn(2) // before or after the first block of the session
+	changeAt := 6 + rng.Intn(2)
+	change := rng.Intn(4)
+	for h := 5; h <= 8; h++ {
+		if h == dispatchAt {
+			sc.Actions = append(sc.Actions, Action{A: "dispatch", OnlyA: true, Who: "a4", Chain: "0002"})
+		}
+		var txs []map[string]interface{}
+		if h == changeAt {
+			switch change {
+			case 0: // drop the session's chain
+				txs = append(txs, map[string]interface{}{"kind": "node_stake", "node": "a2", "chains": []interface{}{"0001"}, "amount": float64(3000000), "output": "a2"})
+				kinds = append(kinds, "edit-drops-chain")
+			case 1: // keep the chains, bump the stake
+				txs = append(txs, map[string]interface{}{"kind": "node_stake", "node": "a2", "chains": []interface{}{"0001", "0002"}, "amount": float64(4000000), "output": "a2"})
+				kinds = append(kinds, "edit-bump")
+			case 2: // swap the other chain
+				txs = append(txs, map[string]interface{}{"kind": "node_stake", "node": "a2", "chains": []interface{}{"0002", "0003"}, "amount": float64(3000000), "output": "a2"})
+				kinds = append(kinds, "edit-swaps-other-chain")
+			default: // begin unstaking
+				txs = append(txs, map[string]interface{}{"kind": "node_unstake", "node": "a2", "signer": "a2"})
+				kinds = append(kinds, "unstake")
+			}
+		}
+		sc.Actions = append(sc.Actions, Action{A: "block", Txs: txs})
+		if h == dispatchAt && rng.Intn(2) == 0 {
+			sc.Actions = append(sc.Actions, Action{A: "dispatch", OnlyA: true, Who: "a4", Chain: "0002"})
+		}
+	}
+	// session ended at 8; the claim window is open from 9
+	claimAt := 9 + rng.Intn(3)
+	for h := 9; h <= 12; h++ {
+		var txs []map[string]interface{}
+		if h == claimAt {
+			txs = append(txs, map[string]interface{}{"kind": "claim", "node": "a2", "app": "a4", "chain": "0002", "sessionHeight": float64(5), "total": float64(5 + rng.Intn(20))})
+		}
+		sc.Actions = append(sc.Actions, Action{A: "block", Txs: txs})
+	}
+	return sc, kinds
+}
+
 // randomRel records, per random scenario, one event per block: whether node A (served
 // off-chain requests) and node B (did not) agree, plus the kinds of requests A served.
 func randomRel(out string, n int) {
@@ -268,6 +322,9 @@ func randomRel(out string, n int) {
 		// a third of the scenarios avoid the request kinds with known findings, so that
 		// everything else is judged on its own
 		sc, kinds := randomScript(rng, hx.Seed()*100+int64(t), t%3 == 0, t%3 == 1)
+		if t%2 == 1 {
+			sc, kinds = sessionScript(rng, hx.Seed()*100+int64(t))
+		}
 		sc.Role = "A"
 		a := child(sc)
 		sc.Role = "B"
